@@ -60,7 +60,11 @@ def extract_first_line(func_code):
     """
     if func_code.startswith(FIRST_LINE_TEXT):
         func_code = func_code.split("\n")
-        first_line = int(func_code[0][len(FIRST_LINE_TEXT) :])
+        try:
+            first_line = int(func_code[0][len(FIRST_LINE_TEXT) :])
+        except ValueError:
+            # Truncated header, e.g. the process was killed while writing it.
+            first_line = -1
         func_code = "\n".join(func_code[1:])
     else:
         first_line = -1
@@ -1236,6 +1240,10 @@ def expires_after(
     )
 
     def cache_validation_callback(metadata):
+        if "time" not in metadata:
+            # The metadata could not be read (interrupted or concurrent write
+            # of the entry): consider the entry as expired and recompute.
+            return False
         computation_age = time.time() - metadata["time"]
         return computation_age < delta.total_seconds()
 
